@@ -34,6 +34,8 @@ def cmds_for_ops(ops):
             out.append("range %d %d" % (o["from"], o["to"]))
         elif k == "Reopen":
             out.append("reopen %s" % o["k"])
+        elif k == "ReopenAgain":
+            out.append("reopen again")
         else:
             raise ValueError(k)
     return out
@@ -62,7 +64,9 @@ def to_monitor(ev, table):
     if e in ("Last", "Nearest"):
         return dict(ev)
     if e == "Reopen":
-        return {"e": e, "k": ev["k"], "ret": ev["ret"]}
+        return {"e": e, "k": ev["k"], "ret": ev["ret"], "idxlen": ev.get("idxlen", 1)}
+    if e == "Reopen2":
+        return {"e": e, "ret": ev["ret"]}
     if e == "Reset":
         return {"e": e, "kind": ev["cfg"]["kind"]}
     return None
